@@ -145,7 +145,11 @@ inline std::string diff_outputs(const ApiCase& c, const ExecResult& x, const Exe
 
 // ---- probe values ----------------------------------------------------------------------------
 // injective in idx (idx < 2^60), |v| <= 2^62-1, extremes included at idx 0 and 1
+// data salt of the case generators (0 by default; Engine C uses a second salt so that two threads running the same
+// entry point work on different data)
+inline uint64_t& gen_salt() { static uint64_t s = 0; return s; }
 inline int64_t probe62(uint64_t idx) {
+  if (gen_salt()) idx = idx * 3 + 1000003 * gen_salt() + 2;
   if (idx == 0) return (INT64_C(1) << 62) - 1;
   if (idx == 1) return -((INT64_C(1) << 62) - 1);
   uint64_t v = (idx * 0x9E3779B97F4A7C15ull) & ((UINT64_C(1) << 61) - 1);
